@@ -53,7 +53,7 @@ def leaf_diffs(a, b, path=(), owner=None):
             not (a and a[0] == 'exc' and len(a) > 1 and isinstance(a[1], str) and a[1] != b[1]):
         label = a[0] if a and isinstance(a[0], str) else None
         if label == 'exc' and len(a) > 1 and isinstance(a[1], str) and a[1] == b[1]:
-            owner = a[1]
+            owner = _owner_name(a)
         elif label in ('stop', 'astop'):
             owner = 'StopIteration' if label == 'stop' else 'StopAsyncIteration'
         elif label == 'tuple' and len(a) > 1 and isinstance(a[1], list) and a[1] and a[1][0] == ['str', "'caught'"]:
@@ -119,6 +119,12 @@ def _ctx_of(x):
     return None, None
 
 
+def _owner_name(e):
+    """class name of an exception sig; exceptions raised by the `chk` helper inside a delegate (ValueError('chk<i>'))
+    are marked, so that they are not mistaken for a ValueError thrown in by the history"""
+    return e[1] + ('#delegate' if "'chk" in json.dumps(e[2]) else '')
+
+
 def _ctx_kind(a, b, owner=None):
     """a, b: differing contents of a __context__ slot (exception sig or None) of reference / compiled run, slot owned by
     exception `owner` -> (kind, name of the exception whose __context__ differs)"""
@@ -130,11 +136,11 @@ def _ctx_kind(a, b, owner=None):
         # same exception in the slot: look where their own chains differ (context first, then cause)
         (ca, ka), (cb, kb) = _ctx_of(a), _ctx_of(b)
         if ka != kb:
-            return _ctx_kind(ka, kb, a[1])
+            return _ctx_kind(ka, kb, _owner_name(a))
         if ca != cb and ca is not None and cb is not None and ca[:3] == cb[:3]:
             (_, kca), (_, kcb) = _ctx_of(ca), _ctx_of(cb)
             if kca != kcb:
-                return _ctx_kind(kca, kcb, ca[1])
+                return _ctx_kind(kca, kcb, _owner_name(ca))
     return 'ctx-other', owner
 
 
@@ -298,7 +304,8 @@ def mechanism(body, hist, te, tg):
                 # (N) the delegate raises on a plain resume: it is called outside the generator's exception context
                 if is_resume and fk == 'ctx-missing':
                     return 'delegate-exception-context-in-handler'
-            if fk == 'ctx-missing' and owner != 'log' and deleg_in_handler_somewhere and owner not in thrown_before \
+            if fk == 'ctx-missing' and owner != 'log' and deleg_in_handler_somewhere and \
+                    (str(owner).endswith('#delegate') or owner not in thrown_before) \
                     and ('ctx-missing', 'log') not in feats and not (is_throw and owner == THROWN_NAME.get(oparg)):
                 # (N, delayed) an exception that came out of a delegate while the generator was handling another one
                 # was parked by a finally clause that yields, and surfaces now: sys.exc_info() observations of this
